@@ -531,6 +531,78 @@ def finalize(agg):
     return {}
 
 
+def lowprec_body(c):
+    """Low-precision programs: a float32 (or float16) array with partners of the same precision or float64, used through 1-2 indexed reads (repeated
+    rows, negative-step slices, masks) and 1-3 dense terms in a drawn order.  The accumulated gradient equals the float64 sum of the dense-equivalent
+    contributions to the precision of the array's dtype."""
+    import autograd
+    import autograd.numpy as anp
+
+    vseed = c.seed()
+    dt = c.choice(["float32", "float32", "float16"])
+    pdt = c.choice(["same", "same", "float64"])
+    rows, cols = c.int(2, 5), c.int(1, 3)
+    (X64, ) = values.generic(vseed, [(rows, cols)], -1.2, 1.2)[0]
+    X = X64.astype(dt)
+    wdt = dt if pdt == "same" else "float64"
+    kinds = [c.choice(["rows_repeat", "neg_step", "mask", "dense_lin", "dense_sq", "dense_sin", "dense_lin"]) for _ in range(c.int(3, 5))]
+    ids = onp.array([c.int(0, rows - 1) for _ in range(c.int(1, rows + 1))])
+    mask = X64[:, 0] > 0.0
+    Wt = [values.direction(vseed, (rows, cols), 150 + k).astype(wdt) for k in range(len(kinds))]
+    sample = {"dtype": dt, "partners": pdt, "shape": [rows, cols], "terms": kinds, "ids": ids.tolist(), "vseed": vseed}
+    c.features.update(dtype=dt, partners=pdt, seq="".join("s" if k in ("rows_repeat", "neg_step", "mask") else "d" for k in kinds))
+    bucket = lambda k: f"C11|lowprec|{dt}|{k}"
+
+    def f(x, ns=anp, W=Wt):
+        tot = None
+        for k, kd in enumerate(kinds):
+            if kd == "rows_repeat":
+                t = ns.sum(x[ids] * W[k][ids])
+            elif kd == "neg_step":
+                t = ns.sum(x[::-1, ::-1] * W[k])
+            elif kd == "mask":
+                t = ns.sum(x[mask] * W[k][mask])
+            elif kd == "dense_lin":
+                t = ns.sum(x * W[k])
+            elif kd == "dense_sq":
+                t = ns.sum(x * x * W[k])
+            else:
+                t = ns.sum(ns.sin(x) * W[k])
+            tot = t if tot is None else tot + t
+        return tot
+
+    Xr = X.astype("float64")
+    want = onp.zeros((rows, cols))
+    for k, kd in enumerate(kinds):
+        Wk = Wt[k].astype("float64")
+        if kd == "rows_repeat":
+            onp.add.at(want, ids, Wk[ids])
+        elif kd == "neg_step":
+            want += Wk[::-1, ::-1]
+        elif kd == "mask":
+            want[mask] += Wk[mask]
+        elif kd == "dense_lin":
+            want += Wk
+        elif kd == "dense_sq":
+            want += 2 * Xr * Wk
+        else:
+            want += onp.cos(Xr) * Wk
+    try:
+        got = onp.asarray(autograd.grad(f)(X))
+        got2 = onp.asarray(autograd.make_vjp(f)(X)[0](1.0))
+    except Exception as e:
+        if not from_autograd(e):
+            raise
+        return fail("unexpected_exception", describe_exc(e), bucket("exception"), sample=sample)
+    eps = {"float32": 2e-5, "float16": 2e-2}[dt] * max(1.0, float(onp.max(onp.abs(want))))
+    for tag, gg in (("grad", got), ("make_vjp", got2)):
+        if gg.shape != (rows, cols) or not onp.all(onp.abs(gg.astype("float64") - want) <= eps * len(kinds)):
+            return fail("wrong_value", f"{tag}: accumulated gradient of a {dt} array differs from the sum of its contributions by {float(onp.max(onp.abs(gg.astype('float64') - want))) if gg.shape == (rows, cols) else 'shape'} (terms {kinds})",
+                        bucket("value"), sample=sample)
+    nt = any(k in ("rows_repeat", "neg_step", "mask") for k in kinds) and sum(k.startswith("dense") for k in kinds) >= 2
+    return ok(nontrivial=nt, key=json.dumps([dt, pdt, rows, cols, kinds, ids.tolist()]), labels=["lowprec", "dtype=" + dt, "partners=" + pdt], sample=sample)
+
+
 def container_params_body(c):
     """Parameters kept in a dict / list / tuple (2 or 3 arrays of one shape); the loss is a sum, in a drawn order, of 3-6 terms: an entry
     indexed with repeated row ids (sparse contribution), an entry used densely, two entries tied by E + F or E * F inside a nonlinearity
@@ -626,6 +698,7 @@ PROP = Prop("C11", [
     Test("reassemble", reassemble_body, quick=2500, thorough=20000, shard_size=250),
     Test("int_cotangent", int_cotangent_body, quick=1500, thorough=10000, shard_size=250),
     Test("container_params", container_params_body, quick=1500, thorough=12000, shard_size=250),
+    Test("lowprec", lowprec_body, quick=1500, thorough=10000, shard_size=250),
 ], RULE, assumptions=[
     "NumPy's own indexing applied to arange(size) identifies the selected positions (the scatter model)",
 ])
